@@ -246,16 +246,22 @@ func (db *DB) GarbageCollect(ctx context.Context) error {
 		return span.Error(err)
 	}
 
+	// A failure on one file ends the pass, but the files collected before it have
+	// already been rewritten: their new offsets must reach the index file all the same,
+	// or a restart reads the compacted files through the old offsets.
+	var gcErr error
 	for fileKey := uint16(1); fileKey <= uint16(db.fc.counter.Value()); fileKey++ {
 		if db.fc.hasWriter(fileKey) {
 			continue
 		}
 		s, err := db.cfg.FS.Stat(fileKeyToName(fileKey))
 		if err != nil {
-			return span.Error(err)
+			gcErr = err
+			break
 		}
 		if err = db.garbageCollectFile(fileKey, s.Size()); err != nil {
-			return span.Error(err)
+			gcErr = err
+			break
 		}
 	}
 
@@ -265,7 +271,7 @@ func (db *DB) GarbageCollect(ctx context.Context) error {
 	// We choose to keep the mutex locked while persisting pointers: the time sacrifice
 	// should not be substantial, and this ensures that the order of index persists are
 	// in order of garbage collect so that the index does reflect the correct indexes.
-	return persist()
+	return span.Error(errors.Combine(gcErr, persist()))
 }
 
 func (db *DB) garbageCollectFile(key uint16, size int64) error {
